@@ -104,6 +104,41 @@ func c12Rules(p *core.Prog, r *core.Run) {
 	// --- T3
 	c04ParserDiscipline(p, r, "C12.T3", scope, map[string]bool{"dns.ErrDecodeError": true})
 
+	// --- T6: no allocation in the decoder is sized by a number read from the
+	// message (a 12-byte header announcing 4 x 65535 records must not reserve
+	// room for them): sizes are constants or lengths of what was actually read
+	nAlloc := 0
+	for _, f := range scope {
+		for _, b := range f.Blocks {
+			for _, in := range b.Instrs {
+				var sizes []ssa.Value
+				switch x := in.(type) {
+				case *ssa.MakeSlice:
+					sizes = []ssa.Value{x.Len, x.Cap}
+				case *ssa.MakeMap:
+					if x.Reserve != nil {
+						sizes = []ssa.Value{x.Reserve}
+					}
+				default:
+					continue
+				}
+				nAlloc++
+				wire := ""
+				for _, sz := range sizes {
+					if _, isC := sz.(*ssa.Const); isC {
+						continue
+					}
+					e := p.X(sz)
+					if e.Any(func(x *core.Expr) bool { return x.Op == "out" && strings.Contains(x.Name, "cryptobyte.String).Read") }) {
+						wire = short(e)
+					}
+				}
+				r.Check("C12.T6", fmt.Sprintf("%s:alloc#%d", p.FuncName(f), nAlloc), wire == "", p.InstrPos(in), "allocation sized by a value taken from the message: %s (memory must stay proportional to the bytes received)", wire)
+			}
+		}
+	}
+	r.Tables["decoder_allocations"] = nAlloc
+
 	// --- T5
 	doh := p.Func(DNS, "DoH")
 	if doh == nil {
